@@ -8,6 +8,7 @@ import QiVerif.Generated.GenTypes
 import QiVerif.Generated.Basic
 import QiVerif.Model.Gen
 import QiVerif.Model.GenShapes
+import QiVerif.Model.Names
 namespace QiVerif.Tie.C05
 open QiVerif.Gen
 
@@ -72,5 +73,17 @@ theorem shape_name_CleanMethodName : Gen.GenTypes.name_CleanMethodName = GenShap
 theorem shape_name_CleanVarName : Gen.GenTypes.name_CleanVarName = GenShapes.name_CleanVarName := rfl
 theorem shape_registerName : Gen.GenTypes.registerName = GenShapes.registerName := rfl
 theorem shape_forEach : Gen.GenTypes.forEach = GenShapes.forEach := rfl
+
+theorem shape_objectProxyMethods : Gen.GenTypes.objectProxyMethods = GenShapes.objectProxyMethods := rfl
+theorem shape_objectMethods : Gen.GenTypes.objectMethods = GenShapes.objectMethods := rfl
+
+/-- `reservedMethods` of meta/signature/name.go -/
+theorem reserved_names : Gen.GenTypes.name_reservedMethods.map String.toList = Names.reserved := by decide
+
+/-- the methods of bus.ObjectProxy (bus/object_stub_gen.go) with the embedded object.Object
+    (type/object/object.go), and the `WithContext` the generator adds -/
+theorem embedded_names :
+    ((Gen.GenTypes.objectProxyMethods.flatMap (fun m => if m == "embed object.Object" then Gen.GenTypes.objectMethods else [m]))
+      ++ ["WithContext"]).map String.toList = Names.embedded := by decide
 
 end QiVerif.Tie.C05
